@@ -6,6 +6,7 @@ from .. import builders as BLD
 from .. import pathlex as PL
 from ..algebra import Alg, Uninterpreted, atom, const, ref
 from ..model import AnalysisError, attr_chain, call_name, if_chain, stmts_in
+from ..pe import PE, K, resolve
 
 EXPLANATION = (
     "Static writer/reader agreement rules (no execution). R07.1: for every segment class and every branch of d() "
@@ -91,51 +92,83 @@ def reader_table(ctx):
 
 
 # --------------------------------------------------------------------------- writer side
-def classify_returns(fn):
-    """[(context set, Return)] where context has 'abs'/'rel' and 'smooth'/'plain'."""
-    out = []
+def d_scenarios(ctx, cname, fn, forms):
+    """Follow <cname>.d() for every (mode, form): -> {(mode, form): (format string, [argument expressions], line)}"""
+    P = [a.arg for a in fn.args.args]
+    ctx.need(len(P) >= 3, "R07.1", "%s.d: parameters changed: %s" % (cname, P))
+    cp, rel = P[1], P[2]
+    sm = P[3] if len(P) > 3 else None
+    out = {}
+    for mode in ("abs", "rel"):
+        for form in forms:
+            def oracle(pe, test):
+                # attribute flags of the segment (self.relative / self.smooth) are not consulted in these scenarios: the request is explicit
+                return None
 
-    def rec(stmts, ctxset):
-        for s in stmts:
-            if isinstance(s, ast.If):
-                t = ast.unparse(s.test)
-                if "current_point is None" in t:
-                    rec(s.body, ctxset | {"abs"})
-                    rec(s.orelse, ctxset | {"rel"})
-                elif "smooth" in t:
-                    rec(s.body, ctxset | {"smooth"})
-                    rec(s.orelse, ctxset | {"plain"})
-                else:
-                    raise AnalysisError("R07.1", "d(): branch test not recognised: %s" % t[:60])
-            elif isinstance(s, ast.Return):
-                out.append((ctxset, s))
-            elif isinstance(s, ast.Expr) and isinstance(s.value, ast.Constant):
-                continue
+            pe = PE(ctx.m, "R07.1", "%s.d[%s,%s]" % (cname, mode, form[0]), oracle=oracle)
+            pe.bind(cp, K(None) if mode == "abs" else atom(cp))
+            pe.bind(rel, K(None) if mode == "abs" else K(True))
+            if sm is not None:
+                pe.bind(sm, K(form == ("smooth",)))
+            body = [x for x in fn.body if not (isinstance(x, ast.Expr) and isinstance(x.value, ast.Constant))]
+            res = pe.run(body)
+            ctx.need(res is not None and res.kind == "return" and res.value is not None, "R07.1", "%s.d[%s,%s]: no value returned" % (cname, mode, form[0]))
+            v = resolve(pe, res.value)
+            if isinstance(v, ast.Constant) and isinstance(v.value, str):
+                fmt, args = v.value, []
+            elif isinstance(v, ast.BinOp) and isinstance(v.op, ast.Mod) and isinstance(v.left, ast.Constant) and isinstance(v.left.value, str):
+                fmt = v.left.value
+                args = list(v.right.elts) if isinstance(v.right, ast.Tuple) else [v.right]
+                # string arguments known in this scenario (the command letter chosen beforehand) are folded into the format
+                pieces = FMT.split(fmt)
+                convs = [m for m in FMT.finditer(fmt)]
+                newfmt, newargs, ai = "", [], 0
+                pos = 0
+                for m in convs:
+                    newfmt += fmt[pos:m.start()]
+                    pos = m.end()
+                    if m.group(4) == "%":
+                        newfmt += m.group(0)
+                        continue
+                    a_ = args[ai] if ai < len(args) else None
+                    ai += 1
+                    if m.group(4) == "s" and isinstance(a_, ast.Constant) and isinstance(a_.value, str):
+                        newfmt += a_.value
+                    else:
+                        newfmt += m.group(0)
+                        newargs.append(a_)
+                newfmt += fmt[pos:]
+                newargs += args[ai:]
+                fmt, args = newfmt, newargs
             else:
-                raise AnalysisError("R07.1", "d(): statement not recognised: %s" % ast.unparse(s)[:60])
-
-    rec(fn.body, frozenset())
+                raise AnalysisError("R07.1", "%s.d[%s,%s]: return is not a format expression: %s" % (cname, mode, form[0], ast.unparse(v)[:60]))
+            out[(mode, form)] = (fmt, args, res.node.lineno)
     return out
 
 
-def absolute_test_ok(fn):
-    """The absolute/relative split: absolute iff no current point or the requested/recorded mode says so.  We only require that
-    the test mentions current_point is None and `relative` (the as-parsed polarity is a representation choice, geometry is unaffected)."""
-    for s in ast.walk(fn):
-        if isinstance(s, ast.If) and "current_point is None" in ast.unparse(s.test):
-            if "relative" not in ast.unparse(s.test):
-                return False
-    return True
-
-
-def operand_exprs(ret):
-    v = ret.value
-    if isinstance(v, ast.Constant) and isinstance(v.value, str):
-        return v.value, []
-    if isinstance(v, ast.BinOp) and isinstance(v.op, ast.Mod) and isinstance(v.left, ast.Constant):
-        args = v.right.elts if isinstance(v.right, ast.Tuple) else [v.right]
-        return v.left.value, args
-    raise AnalysisError("R07.1", "d(): return is not a format expression: %s" % ast.unparse(v)[:60])
+def mode_test_ok(ctx, cname, fn):
+    """absolute without a current point; with one, relative=True gives the relative form and relative=False the absolute one"""
+    P = [a.arg for a in fn.args.args]
+    cp, rel = P[1], P[2]
+    sm = P[3] if len(P) > 3 else None
+    letters = {}
+    for tag, cpv, relv in (("no current point", K(None), K(True)), ("relative requested", atom(cp), K(True)), ("absolute requested", atom(cp), K(False))):
+        pe = PE(ctx.m, "R07.1", "%s.d[%s]" % (cname, tag))
+        pe.bind(cp, cpv)
+        pe.bind(rel, relv)
+        if sm is not None:
+            pe.bind(sm, K(False))
+        try:
+            res = pe.run([x for x in fn.body if not (isinstance(x, ast.Expr) and isinstance(x.value, ast.Constant))])
+        except AnalysisError:
+            return False, "%s: not decided" % tag
+        v = resolve(pe, res.value) if res is not None and res.value is not None else None
+        f = v.value if isinstance(v, ast.Constant) else (v.left.value if isinstance(v, ast.BinOp) and isinstance(v.left, ast.Constant) else "")
+        if isinstance(v, ast.BinOp) and isinstance(v.right, ast.Tuple) and f.startswith("%s") and isinstance(v.right.elts[0], ast.Constant):
+            f = str(v.right.elts[0].value) + f[2:]
+        letters[tag] = f.strip()[:1]
+    ok = letters["no current point"].isupper() and letters["relative requested"].islower() and letters["absolute requested"].isupper()
+    return ok, str(letters)
 
 
 FMT = re.compile(r"%([-+ #0]*)(\d+)?(?:\.(\d+))?([sdGgEeFfrixX%])")
@@ -145,16 +178,14 @@ def writers(ctx, reader):
     point_str_precision(ctx)
     for cname, forms in WRITERS.items():
         fn = ctx.fn("%s.d" % cname, "R07.1")
-        ctx.ob("R07.1", "%s.d[mode test]" % cname, absolute_test_ok(fn), "", fn.lineno, "absolute/relative choice must depend on current point and the relative request")
-        rets = classify_returns(fn)
+        okm, det = mode_test_ok(ctx, cname, fn)
+        ctx.ob("R07.1", "%s.d[mode test]" % cname, okm, det, fn.lineno, "absolute/relative choice must depend on current point and the relative request")
+        scen = d_scenarios(ctx, cname, fn, list(forms))
         seen = set()
-        for cset, ret in rets:
-            mode = "abs" if "abs" in cset else "rel"
-            form = ("smooth",) if "smooth" in cset else ("plain",)
-            ctx.need(form in forms, "R07.1", "%s.d: unexpected form %s" % (cname, form))
+        for (mode, form), (fmt, args, line) in sorted(scen.items()):
+            ret = ast.Return(value=None, lineno=line)
             upper, lower = forms[form]
             want_letter = upper if mode == "abs" else lower
-            fmt, args = operand_exprs(ret)
             cons = "%s.d[%s,%s]" % (cname, mode, form[0])
             seen.add((mode, form))
             letter = fmt.strip()[:1]
